@@ -55,6 +55,26 @@ CATS = {
                        rec="g_seen.nv_value[{i}] = *{a};",
                        check="EXPECT(g_seen.nv_value[{i}] == {v} && !u{i}, \"move-only by-value argument changed\");",
                        vals=[51, 52]),
+    # the definition declares the parameter with another type, reached by an
+    # implicit conversion from the method's (dtype = definition-side type)
+    "conv_cref_value": dict(ptype="const Tracked&", dtype="Tracked", args=["t0", "t1"],
+                            rec="g_seen.nv_value[{i}] = {a}.id;",
+                            check="EXPECT(g_seen.nv_value[{i}] == {v} && t{i}.id == {v}, \"argument converted to the definition's by-value parameter changed\");",
+                            vals=[41, 42], copies=1, max_moves=None),
+    "conv_int_double": dict(ptype="int", dtype="double", args=["11", "22"],
+                            rec="g_seen.nv_value[{i}] = (long){a};",
+                            check="EXPECT(g_seen.nv_value[{i}] == {v}, \"int argument converted to the definition's double changed\");",
+                            vals=[11, 22]),
+    "conv_int_class": dict(ptype="int", dtype="Wide", args=["11", "22"],
+                           rec="g_seen.nv_value[{i}] = {a}.v;",
+                           check="EXPECT(g_seen.nv_value[{i}] == {v}, \"int argument converted to the definition's class type changed\");",
+                           vals=[11, 22]),
+    # a one-way conversion: cannot go through the macros (they look the method up
+    # with the definition's types), uses method<> / add_function directly
+    "conv_derived_base": dict(direct=True, ptype="Gadget&", dtype="Tag&", args=["g0", "g1"],
+                              rec="g_seen.nv_addr[{i}] = &{a}; g_seen.nv_value[{i}] = {a}.tag;",
+                              check="EXPECT(g_seen.nv_addr[{i}] == static_cast<Tag*>(&g{i}) && g_seen.nv_value[{i}] == 22, \"reference converted to the definition's base-class parameter is not the language's conversion\");",
+                              vals=[22, 22]),
 }
 
 RETS = {
@@ -89,7 +109,7 @@ def case_text(n, desc, ns, kind, pos, cat, ret):
             args.append(argexpr.format(ns=ns))
         else:
             mtypes.append(c["ptype"])
-            dtypes.append(c["ptype"] + " " + names[p])
+            dtypes.append(c.get("dtype", c["ptype"]) + " " + names[p])
             args.append(c["args"][nv])
             recs.append(c["rec"].format(i=nv, a=names[p]))
             checks.append(c["check"].format(i=nv, v=c["vals"][nv]))
@@ -113,6 +133,7 @@ def case_text(n, desc, ns, kind, pos, cat, ret):
     run.append("  auto sp = std::make_shared<Most>(); Most& obj = *sp; std::shared_ptr<%s::Base> spb = sp; g_caller_owner = sp;" % ns)
     run.append("  virtual_ptr<%s::Base> vpb(static_cast<%s::Base&>(obj)); virtual_shared_ptr<%s::Base> vspb(spb); (void)vpb; (void)vspb;" % (ns, ns, ns))
     run.append("  long uses = sp.use_count();")
+    run.append("  Gadget g0, g1; (void)g0; (void)g1;")
     run.append("  Tracked t0(41), t1(42); auto u0 = std::make_unique<int>(51); auto u1 = std::make_unique<int>(52); (void)u0; (void)u1;")
     run.append("  Tracked::reset(); g_seen = Seen();")
     run.append("  " + rcheck.format(call=call, n=n, argcopies=2 * c.get("copies", 0)))
@@ -134,8 +155,13 @@ def case_text(n, desc, ns, kind, pos, cat, ret):
     run.append("}")
     run.append("static void run_%d() { call_%d<%s::Most1>(\"1\"); call_%d<%s::Most2>(\"2\"); call_%d<%s::Most1>(\"1 again\"); }"
                % (n, n, ns, n, ns, n, ns))
-    text = "declare_method(%s, m%d, (%s));\n" % (rtype, n, ", ".join(mtypes))
-    text += "define_method(%s, m%d, (%s)) {\n  %s\n}\n" % (rtype, n, ", ".join(dtypes), "\n  ".join(body))
+    if c.get("direct"):
+        text = "struct key%d;\nusing M%d = method<key%d, %s(%s)>;\n" % (n, n, n, rtype, ", ".join(mtypes))
+        text += "static %s def%d(%s) {\n  %s\n}\n" % (rtype, n, ", ".join(dtypes), "\n  ".join(body))
+        text += "static M%d::add_function<def%d> reg%d;\n#define m%d M%d::fn\n" % (n, n, n, n, n)
+    else:
+        text = "declare_method(%s, m%d, (%s));\n" % (rtype, n, ", ".join(mtypes))
+        text += "define_method(%s, m%d, (%s)) {\n  %s\n}\n" % (rtype, n, ", ".join(dtypes), "\n  ".join(body))
     text += "\n".join(run) + "\n"
     return text
 
@@ -157,6 +183,15 @@ def family(tier):
                     continue
                 cases.append(("kind=ref shape=s_single position=%d companions=%s return=%s" % (pos, cat, ret),
                               "s_single", "ref", pos, cat, ret))
+    # F4: definitions whose non-virtual parameters differ from the method's by an
+    # implicit conversion (done by the thunk), also for definitions on the
+    # method's own classes
+    for cat in ("conv_cref_value", "conv_int_double", "conv_int_class", "conv_derived_base"):
+        for ns in ("s_same", "s_offset"):
+            for kind in (("ref", "vp", "sp") if tier == "quick" else tuple(KINDS)):
+                for pos, ret in ((0, "int"), (1, "value")):
+                    cases.append(("kind=%s shape=%s position=%d companions=%s return=%s" % (kind, ns, pos, cat, ret),
+                                  ns, kind, pos, cat, ret))
     # F3: other kinds with tracked companions (smart pointers / virtual_ptr
     # share the thunk but not the traits)
     kinds3 = ["ptr", "sp", "vp", "vsp", "csp"] if tier != "quick" else ["sp", "vp"]
